@@ -190,8 +190,13 @@ def main(run, prop, level='model_checking'):
         run(ctx)
         rc = ctx.finish()
     except MachineryError as e:
-        print(f'MACHINERY-FAILURE property={prop}: {e}', flush=True)
-        rc = 2
+        if ctx.violations:
+            # violations were found before the machinery gave up: they stand (exit 1), the failure is reported next to them
+            print(f'NOTE: the run ended early with a machinery failure after violations had been found: {str(e)[:300]}', flush=True)
+            rc = ctx.finish()
+        else:
+            print(f'MACHINERY-FAILURE property={prop}: {e}', flush=True)
+            rc = 2
     except Exception:
         traceback.print_exc()
         print(f'MACHINERY-FAILURE property={prop}: harness exception', flush=True)
